@@ -103,12 +103,17 @@ def numericAccepted (pfx : String) (ts : TS) : Bool :=
   | "SEC" => ts != .QZSST
   | _ => false
 
+/-- spec side: surrounding ASCII blanks do not matter -/
+def stripBlanks (cs : List Nat) : List Nat := ((cs.dropWhile (· == 32)).reverse.dropWhile (· == 32)).reverse
+
 def judgeParse (impl : Impl) (codes : List Nat) (form : Form) (f : List Int) (nd : Nat) (frac : Int) (neg : Bool)
     (oh om : Int) (ts : TS) : String :=
   match f with
   | [y, mo, d, h, mi, s] =>
     let date : Date := ⟨y, mo, d⟩
-    if renderText form date h mi s nd frac neg oh om ts.name ≠ codes then "FAIL:generator_text_differs_from_spec_render"
+    -- a text padded with blanks denotes what its core denotes; for padded texts an error is accepted as well
+    -- ("value or error, never another instant")
+    if renderText form date h mi s nd frac neg oh om ts.name ≠ stripBlanks codes then "FAIL:generator_text_differs_from_spec_render"
     else if !(inGrammar date h mi s nd frac oh om) then "na"
     else match impl with
       | .ok [r] =>
@@ -117,12 +122,10 @@ def judgeParse (impl : Impl) (codes : List Nat) (form : Form) (f : List Int) (nd
                               ("denoted_instant", sval r.dur == denoted form ts.name date h mi s nd frac neg oh om)]
          | none => "FAIL:decode")
       | .ok _ => "FAIL:decode"
-      | .other "err" => "FAIL:rejected_valid"
+      | .other "err" => if stripBlanks codes ≠ codes then "ok" else "FAIL:rejected_valid"
       | .other w => "FAIL:" ++ w
   | _ => "FAIL:decode"
 
-/-- spec side: surrounding ASCII blanks do not matter -/
-def stripBlanks (cs : List Nat) : List Nat := ((cs.dropWhile (· == 32)).reverse.dropWhile (· == 32)).reverse
 
 /-- C13: never a panic or a hang; well-formed text with an out-of-range field must be an error -/
 def judgeTotal (impl : Impl) (codes : List Nat) (stamp : Bool) : String × String :=
